@@ -172,7 +172,7 @@ class _Res:
         return _Res(self.data * rnp.asarray(arr).reshape((-1,) + (1,) * (self.data.ndim - 1)))
 
 
-def _mk_calc(U, clsname, chain=()):
+def _mk_calc(U, clsname, chain=(), **user_kw):
     """run the real __init__ (and those of its bases inside static.py up to StaticCalculator) on a bare object; returns (object, kwargs that reach StaticCalculator.__init__)"""
     import ast
     from pyvc.extract import read_source, find_def
@@ -211,7 +211,7 @@ def _mk_calc(U, clsname, chain=()):
         o._kw = reached.get(id(o), {})
         return o
     me = types.SimpleNamespace(_cls=clsname)
-    construct(clsname, me, dict(Efermi=rnp.array([0.5, 1.5]), tetra=False))
+    construct(clsname, me, dict(Efermi=rnp.array([0.5, 1.5]), tetra=False, **user_kw))
     return me, reached.get(id(me), {}), made, factors
 
 
@@ -276,7 +276,11 @@ def _pairs(U):
                 subf = [v for (i, n), v in made_f.items() if i == id(mf)]
                 ok = ok and len(subs) == 1 and subs[0]._cls == "BerryDipole_FermiSea" and len(subf) == 1 and subf[0]._cls == "BerryDipole_FermiSurf" \
                     and subs[0]._kw.get("constant_factor") == cs and subf[0]._kw.get("constant_factor") == cf and subs[0]._kw.get("Efermi") is kws.get("Efermi") and subf[0]._kw.get("Efermi") is kwf.get("Efermi")
-            U.ensure("%s: sea = %s (fder 0%s), surface = %s (fder %d), constant factors in the ratio %g, the surface product holds the factor the sea formula differentiates%s"
+            # a user-supplied factor reaches both calculators (and GME_orb's inner Berry-dipole calculators) unchanged
+            for cls_ in (sea, surf):
+                mu, kwu, made_u, _ = _mk_calc(U, cls_, constant_factor=3.25)
+                ok = ok and kwu.get("constant_factor") == 3.25 and all(v._kw.get("constant_factor") == 3.25 for (i, n_), v in made_u.items() if i == id(mu))
+            U.ensure("%s: sea = %s (fder 0%s), surface = %s (fder %d), constant factors in the ratio %g, the surface product holds the factor the sea formula differentiates; a user-supplied factor reaches every calculator involved%s"
                      % (name, fsea, ", derivative index moved first" if moved else "", fsurf, fder, ratio, "; minus 2 E_F x the Berry dipole of the same kind and factor" if name == "GME_orb" else ""), bool(ok))
     U.run(body, check_feasible=False)
     U.external("EnergyResult arithmetic (-, scalar *, mul_array along the Fermi axis): element-wise (C16)")
@@ -285,7 +289,7 @@ def _pairs(U):
 # ------------------------------------------------------------------ (F) what fder means: C13's unit
 from contracts.C13 import _static_unit as _c13_static
 _c13_static(1, 2, True, False, prop="C28")
-_c13_static(2, 2, True, False, prop="C28", tiers=("thorough",))
+_c13_static(2, 2, True, False, prop="C28")
 
 
 # ------------------------------------------------------------------ bounded: (D) pointwise, and end to end
